@@ -39,6 +39,21 @@ Section Top.
     - subst y'. exact E.
   Qed.
 
+  (* the match a search reports starts and ends at well-formed positions *)
+  Theorem search_boundaries n :
+    (forall p p', okp p -> ix_next_right_pos ix h p = Ok (Some p') -> okp p') -> al n ->
+    forall fuel ngroups tries p p0 e gs, okp p ->
+      ir_search ix unicode utf16 h fuel n ngroups tries p = Some (Some (p0, e, gs)) -> okp p0 /\ okp e.
+  Proof.
+    intros Hk5 Ha fuel ngroups. induction tries as [|t IH]; intros p p0 e gs Hp E; [discriminate|]. cbn [ir_search] in E.
+    destruct (IR fuel n true (p, repeat gd_empty ngroups)) as [l|] eqn:El; [|discriminate].
+    destruct l as [|y l].
+    - destruct (ix_next_right_pos ix h p) as [e0|[p'|]] eqn:En; try discriminate. eapply IH; [eapply Hk5; eauto|exact E].
+    - inversion E; subst. split; [exact Hp|].
+      pose proof (closed_al ix unicode utf16 h okp fuel n true Ha (p0, repeat gd_empty ngroups) (y :: l) Hp El) as Hc.
+      inversion Hc; subst. assumption.
+  Qed.
+
   Lemma obindm_goal f fwd : forall ys, obindm (IR (S f) NGoal fwd) ys = Some ys.
   Proof.
     induction ys as [|[q G] ys IHy]; [reflexivity|]. cbn [obindm]. rewrite IHy. reflexivity.
@@ -181,3 +196,29 @@ Section Top.
     eapply PRel_trans; [eapply empties_pass_sound; exact E5|eapply fails_pass_sound; [exact Hcp|exact E]].
   Qed.
 End Top.
+
+(* ---- what optimize() keeps, whatever the text: with no position counted as well-formed every text hypothesis and
+   every closure condition is vacuous, and the refinement theorem still carries the invariants ---- *)
+Lemma al_nowhere ix unicode utf16 h : forall n, al ix unicode utf16 h (fun _ => False) n.
+Proof.
+  induction n as [n Hleaf|l H|a b IHa IHb|id c nm IHc|neg bw sg eg c IHc|b mn mx g egs ege IHb|b mn mx g IHb] using node_ind2.
+  - destruct n; try contradiction; (split; [intros f fwd x r Hx; destruct Hx|intros fwd s _ q q' Hq; destruct Hq]).
+  - apply al_cat. exact H.
+  - split; assumption.
+  - exact IHc.
+  - exact IHc.
+  - exact IHb.
+  - exact IHb.
+Qed.
+
+Theorem optimize_invariants : forall u16 n n', optimize u16 n = Ok n' -> qok n = true -> qok n' = true /\ ng n' = ng n.
+Proof.
+  intros u16 n n' E Hq.
+  assert (Ht : text_ok ascii_indexer false [] (fun _ => False)).
+  { split; [intros fwd p c p' []|]. split; [intros p p' []|]. split; [intros fwd p c p' []|].
+    split; [intros fwd q []|]. split; [intros fwd q []|]. intros body fwd s q q' _ []. }
+  assert (He : text_enc ascii_indexer [] (fun _ => False)).
+  { split; [intros q []|]. split; [intros fwd q c []|intros fwd q c e []]. }
+  destruct (optimize_sound ascii_indexer false false [] (fun _ => False) Ht He u16 n n' E Hq (al_nowhere _ _ _ _ n)) as (_ & Q & _ & N).
+  split; assumption.
+Qed.
